@@ -69,7 +69,7 @@ type c12world struct {
 }
 
 func newC12World(t *dyn.TypeOps, ch, l, k int) *c12world {
-	cw := &c12world{w: mon.NewWorld(t), t: t, ch: ch, pair: dyn.Pairs[t.ID][t.ID]}
+	cw := &c12world{w: mon.NewWorld(t), t: t, ch: ch, pair: t.SelfPair}
 	cw.alloc(l, k)
 	return cw
 }
@@ -353,7 +353,7 @@ func runC12(c *core.Ctx) {
 
 func runC12Random(c *core.Ctx) {
 	rnd := c.Rand(12)
-	typeIDs := []int{0, 2, 3, 6, 11, 12} // int8 int32 int64 uint16 float32 float64
+	typeIDs := []int{0, 2, 3, 6, 11, 12, 14, 25} // int8 int32 int64 uint16 float32 float64 NInt16 NFloat64
 	seqs := c.Pick(600, 40000)
 	for si := 0; si < seqs; si++ {
 		caseID := fmt.Sprintf("rnd/%d", si)
